@@ -67,6 +67,7 @@ type heapReq struct {
 // getModel returns values for every scalar free variable of the obligation and for the requested heap cells.
 func (o *Obligation) getModel(extra func(scalars map[string]string) []heapReq) (map[string]string, error) {
 	as := append([]*Term{}, o.ex.Assumes[:o.NAssume]...)
+	as = append(as, o.Extra...)
 	as = append(as, o.Guard)
 	fv := map[*Term]bool{}
 	seen := map[*Term]bool{}
@@ -215,10 +216,12 @@ func goLit(t types.Type, v *big.Int, qual types.Qualifier) string {
 }
 
 type replayPlan struct {
-	setup   []string
-	callArg []string
-	ok      bool
-	why     string
+	setup    []string
+	callArg  []string
+	ok       bool
+	why      string
+	shortLen int    // law replays: length seen by the short run
+	lawBuf   string // law replays: the growing buffer argument
 }
 
 // buildInputs writes Go statements creating the arguments from model values.
@@ -245,6 +248,11 @@ func (r *Run) buildInputs(fi *FuncInfo, m map[string]string, scalarName func(i i
 			p.setup = append(p.setup, fmt.Sprintf("%s := %s", an, goLit(t, get(scalarName(i, "")), qual)))
 		case *types.Slice:
 			ln := get(scalarName(i, "#len")).Int64()
+			if _, ok := m[fi.PNames[i]+"#len@long"]; ok {
+				p.shortLen = int(ln)
+				p.lawBuf = "a_" + fi.PNames[i]
+				ln = get(fi.PNames[i] + "#len@long").Int64()
+			}
 			cp := get(scalarName(i, "#cap")).Int64()
 			if ln < 0 || ln > 70000 {
 				p.ok = false
@@ -419,6 +427,9 @@ func (r *Run) tryReplay(v *Result, rf *ReplayFile) {
 			switch u := t.Underlying().(type) {
 			case *types.Slice:
 				ln := modelInt(sc[n+"#len"]).Int64()
+				if l2, ok := sc[n+"#len@long"]; ok {
+					ln = modelInt(l2).Int64()
+				}
 				if ln < 0 || ln > 70000 {
 					continue
 				}
@@ -482,6 +493,13 @@ func (r *Run) tryReplay(v *Result, rf *ReplayFile) {
 			continue
 		}
 		src := r.replaySource(fi, a.plan)
+		if v.O.Kind == "law" {
+			if a.plan.lawBuf == "" {
+				rf.Note += a.name + ": no growing buffer in the model; "
+				continue
+			}
+			src = r.replaySourceLaw(fi, a.plan)
+		}
 		out, rerr := r.runReplay(src)
 		rf.TestSource = src
 		rf.TestOutput = truncate(out, 6000)
@@ -713,4 +731,83 @@ func (r *Run) firstKey() string {
 		return k
 	}
 	return ""
+}
+
+// replaySourceLaw: run the function twice from the same state, on the short and on the long prefix of the
+// model's buffer; the EXT law is violated when the short run gives a verdict other than "more bytes" and the
+// long run disagrees with it in any result or in the object it leaves behind.
+func (r *Run) replaySourceLaw(fi *FuncInfo, p replayPlan) string {
+	var sb strings.Builder
+	sb.WriteString("//go:build verif\n\npackage " + r.W.Pkg.Name() + "\n\nimport (\n\t\"fmt\"\n\t\"reflect\"\n\t\"testing\"\n)\n\n")
+	sb.WriteString("func TestVerifReplay(t *testing.T) {\n")
+	for _, s := range p.setup {
+		sb.WriteString("\t" + s + "\n")
+	}
+	qual := func(o *types.Package) string {
+		if o.Path() == r.W.Pkg.Path() {
+			return ""
+		}
+		return o.Name()
+	}
+	run := func(tag string, buf string) {
+		var args []string
+		for i, a := range p.callArg {
+			if a == p.lawBuf {
+				args = append(args, buf)
+				continue
+			}
+			if pt, ok := fi.PTypes[i].Underlying().(*types.Pointer); ok {
+				fmt.Fprintf(&sb, "\tvar %s_%s %s\n\tif %s != nil { %s_%s = new(%s); *%s_%s = *%s }\n", tag, a, types.TypeString(fi.PTypes[i], qual), a, tag, a, types.TypeString(pt.Elem(), qual), tag, a, a)
+				args = append(args, tag+"_"+a)
+				continue
+			}
+			args = append(args, a)
+		}
+		var lhs []string
+		for k := range fi.RNames {
+			lhs = append(lhs, fmt.Sprintf("%s_r%d", tag, k))
+		}
+		call := ""
+		if mm := methKeyRe.FindStringSubmatch(fi.Key); mm != nil {
+			call = fmt.Sprintf("%s.%s(%s)", args[0], mm[3], strings.Join(args[1:], ", "))
+		} else {
+			call = fmt.Sprintf("%s(%s)", fi.Key, strings.Join(args, ", "))
+		}
+		fmt.Fprintf(&sb, "\t%s := %s\n", strings.Join(lhs, ", "), call)
+	}
+	fmt.Fprintf(&sb, "\tshort := %s[:%d]\n", p.lawBuf, p.shortLen)
+	sb.WriteString("\tdefer func() { if p := recover(); p != nil { fmt.Println(\"REPLAY panic:\", p) } }()\n")
+	run("s", "short")
+	run("l", p.lawBuf)
+	vc := -1
+	for k, t := range fi.RTypes {
+		if nt, ok := t.(*types.Named); ok && nt.Obj().Name() == "ErrorHdr" {
+			vc = k
+		}
+	}
+	cond := "true"
+	if vc >= 0 {
+		cond = fmt.Sprintf("s_r%d != ErrHdrMoreBytes", vc)
+	} else if len(fi.RNames) > 0 {
+		cond = fmt.Sprintf("int(s_r0) < %d", p.shortLen)
+	}
+	fmt.Fprintf(&sb, "\tif %s {\n", cond)
+	for k := range fi.RNames {
+		fmt.Fprintf(&sb, "\t\tif !reflect.DeepEqual(s_r%d, l_r%d) { fmt.Println(\"REPRODUCED result %d differs between the short and the long buffer:\", s_r%d, l_r%d) }\n", k, k, k, k, k)
+	}
+	for i, a := range p.callArg {
+		if _, ok := fi.PTypes[i].Underlying().(*types.Pointer); ok && a != p.lawBuf {
+			fmt.Fprintf(&sb, "\t\tif s_%s != nil && !reflect.DeepEqual(*s_%s, *l_%s) { fmt.Printf(\"REPRODUCED object %s differs: short %%+v long %%+v\\n\", *s_%s, *l_%s) }\n", a, a, a, a, a, a)
+		}
+	}
+	sb.WriteString("\t}\n\tfmt.Println(\"REPLAY finished; short run:\"")
+	for k := range fi.RNames {
+		fmt.Fprintf(&sb, ", s_r%d", k)
+	}
+	sb.WriteString(", \"long run:\"")
+	for k := range fi.RNames {
+		fmt.Fprintf(&sb, ", l_r%d", k)
+	}
+	sb.WriteString(")\n}\n")
+	return sb.String()
 }
